@@ -46,7 +46,7 @@ CHECKS = {
          "Tie: the driver replaces every rule with optional items by its alternatives and requires of the real font: rule count and order, the FSM of every alternative certified for all glyph "
          "strings (C02 theorem), sort keys / pre-contexts / start states (C06), substitution classes and @n / association offsets still denoting the same original item (C04 + offset model); "
          "programs in which some alternative refers to an omitted item must be rejected with error 1103."),
-   note=TB + "Trees up to depth 3 / 8 items, optional groups in the context part only; constraints and attribute expressions referring to slots are covered by C01.",
+   note=TB + "Trees up to depth 3 / 8 items; optional groups in the context part, and in the body of rules written without '>'; every third program carries attribute expressions and item constraints with @n references (conditionals included), whose renumbering is checked by decompiling the code of every alternative (C01's comparison).",
    design="4/C07"),
  "C08": dict(
    technique="Lean checkers for sfnt container/preservation/name records run on real output and on recompilation chains + Lean theorems on the checksum word-sum (additivity over aligned parts, zero padding)",
@@ -82,8 +82,8 @@ CHECKS = {
    text=("Proof: Grc.LM.filter_eq_origin — for every preprocessed text (any sequence of `#line N [\"file\"]` markers and text lines) and every line of it, the file and line reported by the model of "
          "GrpTokenStreamFilter (offset := N - L - 1 at each marker) are those the markers denote (the line after a marker is line N of the last named file). Tie: each generated program is compiled in a "
          "flat spelling and in a decomposition (include file, object-like and function-like macros with a continuation line, #if 0 / #ifdef regions, block comments ending on a statement's line, line "
-         "comments, blank lines): the fonts must be byte-identical; an undefined class is seeded at sampled (thorough: every) statement positions of the decomposition and the error file must cite the "
-         "file and line where it was written (on a mismatch the Lean model is applied to the real gdlpp output to tell whose arithmetic is off); gdlpp's exit status must be non-zero exactly when it "
+         "comments, blank lines): the fonts must be byte-identical; an undefined class, and a syntax error (also as the last tokens before a #line marker: end of an include file, before a multi-line comment), are seeded at sampled (thorough: every) "
+         "statement positions of the decomposition and the error file must cite the file and line where they were written (on a mismatch the Lean model is applied to the real gdlpp output to tell whose arithmetic is off); gdlpp's exit status must be non-zero exactly when it "
          "printed an error (7 cases incl. #error, stray #endif, unterminated #if/comment, missing include = warning)."),
    note=TB + "Macro substitution itself is not modelled (covered by font byte equality only). Parser errors spanning two files (the 'previous marker' rule) are not exercised.",
    design="4/C18"),
@@ -108,7 +108,7 @@ CHECKS = {
    technique="Lean 4 theorems on the version ladder (constants regenerated from source) + strict decoding, LZ4 inflation, byte comparison and libgraphite2 shaping across the full option matrix of real builds",
    text=("Proof: Grc.Ver.declared_version_conforms / version_ge_requested — for every requested version, option set and class-map size the version computed by the model of CalculateSilfVersion "
          "(its thresholds re-extracted from OutputToFont.cpp on every run) is at least the format's minimum for compression (5.0), collision data (4.1), skip-passes attribute and long class "
-         "offsets (4.0); glat_gloc_switch_together. Tie: each generated program is built for {default,-v2..-v5}x{plain,-c}x{with/without -p} and {-d,-D,verbose}: every build must pass the strict "
+         "offsets (4.0); glat_gloc_switch_together. Tie: each generated program (every third one with passes under pass-level feature tests) is built for {default,-v2..-v5}x{plain,-c}x{with/without -p} and {-d,-D,verbose}: every build must pass the strict "
          "decoders (conformance to the layout of the version it declares), its declared Silf version must equal the Lean ladder, compressed Silf/Glat inflated by the Lean LZ4 decoder must equal "
          "the plain tables byte for byte, debug/verbose builds must be byte-identical to the default, and all builds must shape 40-150 texts identically through libgraphite2."),
    note=TB + "LZ4 decoder is an executable Lean definition (partial def), not a proved one; the LZ4-HC compressor is validated per output only. Collision passes are not generated here (C20).",
@@ -117,8 +117,8 @@ CHECKS = {
    technique="Lean 4 specification of rule-level static rules evaluated on the IR + theorem on the class-recursion check + single-fault injection (faulty program and repaired twin) against the real compiler",
    text=("Proof: SR.noCycleFrom_sound — the model of CheckRecursiveGlyphClasses (depth-first walk with an explicit stack) accepts a class only if no chain of class references leads from it back to "
          "itself or to a class on the stack, for every reference graph. Specification SR.ruleViolations (selector, @ and association references out of range or onto an inserted item; insertion, deletion, "
-         "association in the positioning table) is evaluated in Lean on the IR of each injected rule and must flag the faulty rule and not its twin. Tie: 29 single-fault injections (static rule x placement x "
-         "table type), each with a minimally repaired twin: the real compiler must reject the faulty program with exit 1, an error on the injected line (or the line of the enclosing construct) with the "
+         "association in the positioning table) is evaluated in Lean on the IR of each injected rule and must flag the faulty rule and not its twin. Tie: 33 single-fault injections (static rule x placement x "
+         "table type, incl. slot references to inserted items in component references, attribute values and constraints), each with a minimally repaired twin: the real compiler must reject the faulty program with exit 1, an error on the injected line (or the line of the enclosing construct) with the "
          "expected id, and no font; the twin must compile."),
    note=TB + "For text-level rules (undefined names, features, pass structure, attribute roles) the expectation is written in the injector table, not derived in Lean; completeness of the recursion check (every cycle is found) is not proved.",
    design="4/C10"),
@@ -139,8 +139,9 @@ CHECKS = {
    technique="Lean 4 theorem over the limit table regenerated from constants.h + size-parameterised program families compiled around each limit and decoded strictly",
    text=("Proof: Grc.Lim.guarded_no_wrap — for each of 11 size limits (passes, rule slots, features, user slot attributes, replacement classes, glyph attributes, Glat-v1 attribute ids, pseudo-glyphs, "
          "script tags, glyphs per font, attribute values), with the constant re-extracted from constants.h on every run, every quantity the guard accepts is below 2^width of the field that stores it. "
-         "Tie: ten program families (passes, rule slots, leading-context length, features, user attribute index, glyph attributes across the Glat v1/v2 switch, font-name length, item-constraint code "
-         "length across the one-byte skip count, action-block size across the 16-bit code offsets, replacement classes under -v2) are compiled at limit-1, limit, limit+1 and far above: each outcome "
+         "Tie: thirteen program families (passes, rule slots, leading-context length, features, user attribute index, glyph attributes across the Glat v1/v2 switch, font-name length, item-constraint code "
+         "length across the one-byte skip count, action-block size across the 16-bit code offsets, replacement classes under -v2, class-map bytes across the 16-bit class offsets, glyph-attribute bytes "
+         "across the 16-bit Gloc offsets with and without -c) are compiled at limit-1, limit, limit+1 and far above: each outcome "
          "must be an error and no font, or a font that passes the strict decoders, is accepted by libgraphite2 and stores the true value."),
    note=TB + "Field widths are my reading of GTF. Families needing > 65535 glyphs/classes/attributes are not generated. Narrowing writes guarded only by Assert that no family reaches remain unexplored.",
    design="4/C12"),
@@ -148,7 +149,7 @@ CHECKS = {
    technique="Lean 4 order-independence theorems for the pointer-ordered containers + perturbation/concurrency exploration of the real binary",
    text=("Proof: Det.key_perm and Det.sameSet_perm_left (machine-class key and grouping are invariant under any iteration order of the pointer-ordered source-class sets), "
          "Det.attr_cell_order_independent / GA.codeWinner_perm (the stored glyph-attribute assignment does not depend on the order in which the value maps present assignments). "
-         "Exploration: each program (three generated families + suite programs) is compiled 14+ times: repetitions, MALLOC_PERTURB_, large environment, locale/TZ, ASLR off, another working "
+         "Exploration: each program (four generated families, rejected programs with syntax / semantic / preprocessor errors, + suite programs) is compiled 14+ times: repetitions, MALLOC_PERTURB_, large environment, locale/TZ, ASLR off, another working "
          "directory, and 6-12 concurrent compilations sharing the directory and /tmp; (font sha256, diagnostics sha256, exit status) must all be equal."),
    note=TB + "The schedule/heap-layout quantifier is explored (whatever the scheduler produced), not proved; wall-clock dependence is not perturbed. Theorems cover the identified pointer-ordered iterations only.",
    design="4/C13", category="proof"),
